@@ -53,6 +53,11 @@ SHAPES = {
     'shapeE': {'settings': {'histosys': {'interpcode': 'code2'}, 'normsys': {'interpcode': 'code4'}}, 'channels': [{'name': 'SR', 'samples': [
         {'name': 'signal', 'data': ['s0'], 'modifiers': [ns('normfactor', 'mu')]},
         {'name': 'bkg', 'data': ['b0'], 'modifiers': [ns('histosys', 'sysH', {'lo_data': ['hl0'], 'hi_data': ['hh0']}), ns('normsys', 'sysN', {'lo': 'blo', 'hi': 'bhi'})]}]}]},
+    # bin-wise constraints only: the Poisson-constrained block (shapesys) precedes the Gaussian-constrained one (staterror) in the auxiliary
+    # data, so the [normal, poisson] constraint viewer has to reorder; evaluated batched on 2-D data as well (C10)
+    'shapeF': {'channels': [{'name': 'SR', 'samples': [
+        {'name': 'signal', 'data': ['s0', 's1'], 'modifiers': [ns('normfactor', 'mu'), ns('staterror', 'stat_SR', ['es0', 'es1'])]},
+        {'name': 'bkg', 'data': ['b0', 'b1'], 'modifiers': [ns('shapesys', 'uncorr', ['u0', 'u1']), ns('staterror', 'stat_SR', ['eb0', 'eb1'])]}]}]},
 }
 
 NORM_FN = {'code1': 'Interp.slow1 P', 'code4': 'Interp.slow4 P (1.0 : K)'}
@@ -75,6 +80,7 @@ def build(spec, **kw):
 
 
 BATCHED = ('shapeB', 'shapeC')      # shapes also evaluated with batch_size=2
+BATCHED_LOGPDF = ('shapeF',)        # shapes whose batched `logpdf` (two parameter rows, two data rows) and batched `expected_data` are translated
 
 
 def symbols(spec):
@@ -262,6 +268,34 @@ def generate():
                     for b in range(nb):
                         out.append(f'/-- row {t}, bin {b} of `Model(spec, batch_size=2).expected_actualdata` on the parameter rows r0, r1 -/')
                         out.append(f'def {shape}_batch_row{t}_bin{b} {bsig} : K :=\n{sx.lean_tree(project(btree, t * nb + b))}\n')
+            if shape in BATCHED_LOGPDF:
+                nd = nb + info['naux']
+
+                def run_batch_lp():
+                    m = build(spec, batch_size=2)
+                    rows = np.asarray([[var(f'r{t}_' + lean_par(n)) for n in m.config.par_names] for t in range(2)], dtype=object)
+                    data = np.asarray([[var(f'r{t}_' + d) for d in dvars] for t in range(2)], dtype=object)
+                    lp = m.logpdf(rows, data); ed = m.expected_data(rows)
+                    assert np.shape(lp) == (2,) and np.shape(ed) == (2, nd), (np.shape(lp), np.shape(ed))
+                    return [sx.lit(x) for x in np.ravel(lp)] + [sx.lit(x) for x in np.ravel(ed)]
+                bltree = sx.paths(run_batch_lp, positive=syms)
+                blsig = ('(P : Prim K) (lpois : K → K → K) (lnorm : K → K → K → K) (' + ' '.join(syms) + ' : K) (' + ' '.join(f'r{t}_' + v for t in range(2) for v in parvars)
+                         + ' : K) (' + ' '.join(f'r{t}_' + d for t in range(2) for d in dvars) + ' : K)')
+                for t in range(2):
+                    out.append(f'/-- row {t} of `Model(spec, batch_size=2).logpdf(rows, data)` on the parameter rows r0, r1 and the data rows r0, r1 -/')
+                    out.append(f'def {shape}_batch_row{t}_logpdf {blsig} : K :=\n{sx.lean_tree(project(bltree, t))}\n')
+                    for k in range(nd):
+                        out.append(f'/-- row {t}, entry {k} of `Model(spec, batch_size=2).expected_data(rows)` (main bins, then auxiliary data) -/')
+                        out.append(f'def {shape}_batch_row{t}_expdata{k} {blsig} : K :=\n{sx.lean_tree(project(bltree, 2 + t * nd + k))}\n')
+
+                def run_expdata():
+                    m = build(spec)
+                    pars = np.asarray([var(lean_par(n)) for n in m.config.par_names], dtype=object)
+                    return [sx.lit(x) for x in np.ravel(m.expected_data(pars))]
+                etree = sx.paths(run_expdata, positive=syms)
+                for k in range(nd):
+                    out.append(f'/-- entry {k} of the unbatched `Model.expected_data(pars)` -/')
+                    out.append(f'def {shape}_expdata{k} {sig} : K :=\n{sx.lean_tree(project(etree, k))}\n')
             out.append(f'/-- the template: one Poisson term per bin on the rates above, one constraint term per constrained parameter component in `auxdata_order` -/')
             out.append(f'def {shape}_logpdf_ref {lsig} : K :=\n  (' + ' + '.join(main_terms) + ')' + (' + (' + ' + '.join(cons) + ')' if cons else '') + '\n')
     finally:
